@@ -309,6 +309,45 @@ func streamLex(o *Out, r *rand.Rand, n int, thorough bool) {
 		if len(a)+len(b) > 20000 {
 			continue
 		}
+		// texts made of separators only, and texts that start with separators
+		seps := []string{";", ";;", "\n;", "# c\n;", " ; ", "", "\n\n", ";\n;"}
+		switch r.Intn(8) {
+		case 0:
+			a = seps[r.Intn(len(seps))]
+		case 1:
+			b = seps[r.Intn(len(seps))] + b
+		case 2:
+			a, b = seps[r.Intn(len(seps))], seps[r.Intn(len(seps))]+b
+		case 3:
+			// the same inside a block: an empty statement in front changes nothing but the lines
+			inner := func(src string) ([]string, bool) {
+				st, err := parser.ParseSrc(src)
+				if err != nil {
+					return nil, false
+				}
+				ss, ok := st.(*ast.StmtsStmt)
+				if !ok || len(ss.Stmts) != 1 {
+					return nil, false
+				}
+				switch x := ss.Stmts[0].(type) {
+				case *ast.IfStmt:
+					return astser.DumpStmts(x.Then, 0)
+				case *ast.LoopStmt:
+					return astser.DumpStmts(x.Stmt, 0)
+				}
+				return nil, false
+			}
+			head := []string{"if true {", "for {"}[r.Intn(2)]
+			sep := []string{";", "# c\n;", ";;"}[r.Intn(3)]
+			plain, ok1 := inner(head + "\n\n" + strings.Repeat("\n", strings.Count(sep, "\n")) + a + "\n}")
+			withSep, ok2 := inner(head + "\n" + sep + "\n" + a + "\n}")
+			o.Sum.Hist["concat:block-separator"]++
+			if ok1 && (!ok2 || strings.Join(plain, "\n") != strings.Join(withSep, "\n")) {
+				o.Fail(Failure{Oracle: "concat-tree", Key: "block-separator-differs", Input: head + "\n" + sep + "\n" + a + "\n}",
+					Detail: fmt.Sprintf("with the separator line replaced by an empty line the block has %d statements, with it %d (parsed %v)", len(plain), len(withSep), ok2)})
+			}
+			continue
+		}
 		sa, _ := parser.ParseSrc(a)
 		sb, _ := parser.ParseSrc(b)
 		da, ok1 := astser.DumpStmts(sa, 0)
